@@ -251,6 +251,8 @@ class Gen:
         if self.lists:
             opts.append("bad-cons")
         opts += ["undefined", "bad-return", "bad-def", "bad-import", "bad-block"]
+        if self.funs:
+            opts.append("bad-overload")
         # (a second definition with the signature of an existing function is NOT in the
         # catalogue: the loop answers it with an interactive "Redefine? (y/n)" question that
         # eats the following input - a dialogue, not a rejection, and outside the property)
@@ -273,6 +275,11 @@ class Gen:
             return self.add(Form("bad:" + k, '%s << "@@x:" << %s(4) << newline;' % (self.d.out, self.fresh("nosuch")), good=False))
         if k == "bad-return":
             return self.add(Form("bad:" + k, "%s(a: %s): String == a;" % (self.fresh("g"), SI), good=False))
+        if k == "bad-overload":
+            # an ill-typed definition that would OVERLOAD an existing function (other
+            # signature): the existing meaning must keep working afterwards
+            fn = r.choice(sorted(self.funs))
+            return self.add(Form("bad:" + k, '%s(x: String): %s == x + 1;' % (fn, SI), good=False))
         if k == "bad-import":
             return self.add(Form("bad:" + k, "import from %s;" % self.fresh("NoSuchDomain"), good=False))
         if k == "bad-block":
